@@ -81,10 +81,13 @@
 //   contracts in their own slices (vehicles / keys of next_period_transitions unchanged or extended); here the results are
 //   uninterpreted, so they are stated.
 //
-// NOT covered: level B (that the candidate is a valid schedule with exact caches) is NOT derived here: it needs the contracts
-//   of the modification slices and their preconditions for the intermediate schedules (rs_ok, ap_ok, ...: preservation of
-//   those invariants as a whole is not proved in the modification slices, see their headers); the texts of the error messages;
-//   the neighbourhood iterators of neighborhood/mod.rs (rayon); Display impls.
+// NOT covered here: level B (that the candidate is a valid schedule with exact caches).  For RemoveSingleNode it is proved in the
+//   companion slice slices/swaps_sem.vs over the real contract of remove_segment (the two levels cannot share a file: both
+//   need an inherent method Schedule::remove_segment, with different contracts).  For the other three moves it is NOT derived:
+//   they compose two to five modifications whose shims cannot be included together (same names: sp_is_vehicle, sorted_cmp,
+//   usage_exact, ids_ok, rs_ok, Ord of VehicleIdx, ...), and the modification slices do not prove that their result satisfies
+//   the precondition bundle of the NEXT modification as a whole (rs_ok / ap_ok / dp_ok: see their headers).  Also not covered:
+//   the texts of the error messages; the neighbourhood iterators of neighborhood/mod.rs (rayon); the Display impls.
 #![feature(allocator_api)]
 use vstd::prelude::*;
 use std::ops::Add;
@@ -374,9 +377,9 @@ impl Clone for TransitionCycle {
     ensures
         self.result(schedule, r), // @obl C11.add_trip_for_hitch_hiking.is_the_documented_composition
 //@first
-        proof { axiom_req_add_trip_for_hitch_hiking(self, schedule); lemma_no_panic_add_trip_for_hitch_hiking(self, schedule); }
-//@before "match conflict"
         proof {
+            axiom_req_add_trip_for_hitch_hiking(self, schedule);
+            lemma_no_panic_add_trip_for_hitch_hiking(self, schedule);
             // (`vec![self.vehicle]` is anonymous: every one-element list of the vehicle is the list [vehicle])
             assert forall|q: Seq<VehicleIdx>| #[trigger] q.len() == 1 && q[0] == self.vehicle implies q == seq![self.vehicle] by {
                 assert(q =~= seq![self.vehicle]);
